@@ -209,30 +209,39 @@ func oracleC18Prim(c *CaseC18Prim) *Failure {
 			pc.Strs[i] = HexBytes{}
 		}
 	}
-	var buf bytes.Buffer
-	err, pan, _ := safely(func() error { return libPrimWrite(pc, c.LE, &buf) })
-	if pan != nil {
-		return failf(sig+"/panic", "length %d: panicked: %v", c.N, pan)
-	}
-	if uint64(c.N) > max {
-		if err == nil {
-			pfx := buf.Bytes()[:min(buf.Len(), NSize(c.Prefix)+4)]
-			return failf(sig+"/wrapped", "length %d exceeds the %s maximum %d, yet the writer succeeded and wrote %d bytes starting %x (a wrapped-around prefix followed by the data)", c.N, c.Prefix, max, buf.Len(), pfx)
+	// twice: into a fresh buffer, and into one that already has room for everything (recycled after a large
+	// message, or pre-grown by the caller) - a writer may take another path when no growth is needed
+	for _, roomy := range []bool{false, true} {
+		var buf bytes.Buffer
+		where := ""
+		if roomy {
+			buf.Grow(min(64<<20, c.N*8+1<<16))
+			where = " (buffer with spare capacity for all of it)"
 		}
-		return nil
-	}
-	if err != nil {
-		return failf(sig+"/refused-valid", "length %d fits %s (max %d) but the writer returned %v", c.N, c.Prefix, max, err)
-	}
-	nums, ss, rerr := libPrimRead(pc, c.LE, bytes.NewBuffer(buf.Bytes()))
-	if rerr != nil {
-		return failf(sig+"/roundtrip", "length %d: written value cannot be read back: %v", c.N, rerr)
-	}
-	if len(nums)+len(ss) != len(pc.Nums)+len(pc.Strs) {
-		return failf(sig+"/roundtrip", "length %d: read back %d elements", c.N, len(nums)+len(ss))
-	}
-	if c.Prim == "str" && len(ss[0]) != c.N || c.Prim == "strlist-inner" && len(ss[1]) != c.N {
-		return failf(sig+"/roundtrip", "length %d: text read back with another length", c.N)
+		err, pan, _ := safely(func() error { return libPrimWrite(pc, c.LE, &buf) })
+		if pan != nil {
+			return failf(sig+"/panic", "length %d%s: panicked: %v", c.N, where, pan)
+		}
+		if uint64(c.N) > max {
+			if err == nil {
+				pfx := buf.Bytes()[:min(buf.Len(), NSize(c.Prefix)+4)]
+				return failf(sig+"/wrapped", "length %d exceeds the %s maximum %d, yet the writer succeeded%s and wrote %d bytes starting %x (a wrapped-around prefix followed by the data)", c.N, c.Prefix, max, where, buf.Len(), pfx)
+			}
+			continue
+		}
+		if err != nil {
+			return failf(sig+"/refused-valid", "length %d fits %s (max %d) but the writer returned %v%s", c.N, c.Prefix, max, err, where)
+		}
+		nums, ss, rerr := libPrimRead(pc, c.LE, bytes.NewBuffer(buf.Bytes()))
+		if rerr != nil {
+			return failf(sig+"/roundtrip", "length %d: written value cannot be read back: %v", c.N, rerr)
+		}
+		if len(nums)+len(ss) != len(pc.Nums)+len(pc.Strs) {
+			return failf(sig+"/roundtrip", "length %d: read back %d elements", c.N, len(nums)+len(ss))
+		}
+		if c.Prim == "str" && len(ss[0]) != c.N || c.Prim == "strlist-inner" && len(ss[1]) != c.N {
+			return failf(sig+"/roundtrip", "length %d: text read back with another length", c.N)
+		}
 	}
 	return nil
 }
@@ -433,6 +442,18 @@ func oracleC18Msg(c *CaseC18Msg) *Failure {
 		return nil
 	}
 	sig := "C18/" + c.Type + "." + c18PathString(c)
+	if uint64(c.N) > max {
+		// also into a buffer that already has room for the whole message (recycled / pre-grown)
+		var roomy bytes.Buffer
+		roomy.Grow(min(64<<20, c.N*64+1<<16))
+		rerr, rpan, _ := safely(func() error { return EncodeAny(ToStruct(v), &roomy) })
+		if rpan != nil {
+			return failf(sig+"/panic", "length %d: Encode into a roomy buffer panicked: %v", c.N, rpan)
+		}
+		if rerr == nil {
+			return failf(sig+"/wrapped", "%d entries/bytes behind a prefix whose maximum is %d: Encode into a buffer with spare capacity succeeded (%d bytes written) instead of returning an error", c.N, max, roomy.Len())
+		}
+	}
 	out, _, err, pan := LibEncode(v)
 	if pan != nil {
 		return failf(sig+"/panic", "length %d: Encode panicked: %v", c.N, pan)
